@@ -1061,3 +1061,33 @@ func init() {
 		}, modifies: func(*Frame, *ssa.CallCommon) []string { return nil }, doc: "little-endian decode"}
 	}
 }
+
+// sync/atomic.Value: a cell holding an interface value (its field v); Load / Store are sequentially
+// consistent (trusted).
+func init() {
+	avLV := func(fr *Frame, cc *ssa.CallCommon, pos token.Pos) *LVal {
+		lv := fr.lvalOf(cc.Args[0])
+		if _, isL := fr.lvals[cc.Args[0]]; !isL && lv.Ref != "" {
+			fr.nilCheck(lv.Ref, "atomic.Value", pos)
+		}
+		st, ok := lv.T.Underlying().(*types.Struct)
+		if !ok || st.NumFields() != 1 {
+			fr.vc.unsupportedf("atomic.Value layout")
+			return lv
+		}
+		fr.vc.callees["sync/atomic.Value (sequentially consistent cell; trusted)"] = true
+		return &LVal{Comp: lv.Comp, Ref: lv.Ref, Path: append(append([]pathElem{}, lv.Path...), pathElem{field: 0, structT: lv.T}), T: st.Field(0).Type()}
+	}
+	nativeCalls["sync/atomic.(*Value).Load"] = &nativeCall{exec: func(fr *Frame, cc *ssa.CallCommon, st *State, pos token.Pos) []Term {
+		lv := avLV(fr, cc, pos)
+		t := fr.vc.loadL(lv, st)
+		n := fr.vc.fresh("avload")
+		fr.vc.define(n, "Int", t.S)
+		return []Term{{n, "Int", cc.Signature().Results().At(0).Type()}}
+	}, modifies: func(*Frame, *ssa.CallCommon) []string { return nil }, doc: "atomic.Value.Load"}
+	nativeCalls["sync/atomic.(*Value).Store"] = &nativeCall{exec: func(fr *Frame, cc *ssa.CallCommon, st *State, pos token.Pos) []Term {
+		lv := avLV(fr, cc, pos)
+		fr.vc.storeL(lv, fr.val(cc.Args[1]).S, st)
+		return nil
+	}, modifies: func(fr *Frame, cc *ssa.CallCommon) []string { return fr.compsOfAddr(cc.Args[0]) }, doc: "atomic.Value.Store"}
+}
